@@ -68,7 +68,7 @@ func checkBlocks(text string, lines []model.LineInfo, nRecords int, blocks []txt
 			}
 			if !blank {
 				sigCount++
-				if pos < len(lines) && lines[pos].Rec != bi {
+				if lines != nil && pos < len(lines) && lines[pos].Rec != bi {
 					return fmt.Errorf("%s: block %d contains line %d of record %d", engine, bi, pos, lines[pos].Rec)
 				}
 			}
